@@ -2,7 +2,8 @@
    Model: Model_store (hand-written; snapshot = parse (export rows) built from the regenerated
    C01/C02 leaf functions).  PARTIAL by nature: independence is a theorem about the functional
    store; what ties it to the code (separate sqlite3 connections) is the history correspondence. *)
-From Verif Require Import PyLib ModelTypes Model_parse Model_export Model_store Proofs_zone Proofs_store.
+From Verif Require Import PyLib ModelTypes Model_parse Model_export Model_store Spec_parse Spec_export Proofs_zone Proofs_store
+  Proofs_roundtrip Proofs_roundtrip2 Proofs_store2.
 
 (* the derived object holds exactly one row per selected row, in order, and row k depends only
    on source row k (through its exported text) — no shifted, merged or cross-talking rows *)
@@ -11,6 +12,18 @@ Theorem C15_snapshot_rowwise : forall rows,
   same_outcome (snapshot rows) (mapM derived_row rows).
 Proof. exact snapshot_rowwise. Qed.
 Print Assumptions C15_snapshot_rowwise.
+
+(* ... and the snapshot is FAITHFUL: for rows that fit their field widths (strip-stable text, non-empty chain: the
+   premises of C02's round trip) the derived object holds, row by row and in order, the row itself in every integer
+   and text attribute and the PDB-text-precision value in every numeric one: approx_row holds between the source
+   row and the derived row *)
+Theorem C15_snapshot_faithful : forall rows,
+  Forall (fun r => fits r = true /\ rereadable r) rows ->
+  (forall r l, In r rows -> line_of_row r = Ok l -> nonl l = true) ->
+  snapshot rows = Ok (map (fun r => reread_row r 0) rows)
+  /\ Forall2 (fun r r' => approx_row r r' = true) rows (map (fun r => reread_row r 0) rows).
+Proof. exact snapshot_faithful. Qed.
+Print Assumptions C15_snapshot_faithful.
 
 (* one step on one object leaves every other object as it was; a derivation changes no existing object *)
 Theorem C15_step_independent : forall s o s' b,
